@@ -14,7 +14,8 @@ connection carries (to the model: a call) · d<k>:<n> release the object of the 
 callbacks (to the model: a call) · x<k>:<n>:<m> a hostile but well-formed request naming a foreign / builtin type and answering
 the server's class inspection with junk (to the model: a handled frame) · l<k> call that lends an object ·
 o<k>:<n> use the object of the n-th lend (0-based, whole case) on connection k · g<k> graceful close ·
-a<k> abrupt close (FIN) · E the accept loop's accept() fails once (EMFILE / ECONNABORTED) · z<k> abrupt close by reset (RST; the same to the model) · X server close · i<k>:<letters> hostile frames given as items (h handled, e empty, b bad,
+a<k> abrupt close (FIN) · E the accept loop's accept() fails once (EMFILE / ECONNABORTED) · f<k> client k connects and no thread / child process can be
+started for it (threaded, forking) · z<k> abrupt close by reset (RST; the same to the model) · X server close · i<k>:<letters> hostile frames given as items (h handled, e empty, b bad,
 t incomplete) · r<k>:<hex>[:<inhex>=<outhex|E>,..] hostile bytes (zlib results of the compressed frames supplied).
 
 Output: one segment per token joined by " ; ":
@@ -84,6 +85,7 @@ def parseTok (tok : String) : Option Tok :=
       | some k, some j => some (.op (.connectReuse k j))
       | _, _ => none
     | _ => none
+  | 'f' :: cs => (parseNatChars cs).map (fun k => .op (.connectNoSpawn k))
   | 'm' :: cs => (parseNatChars cs).map (fun k => .op (.call k .arm))
   | 'h' :: cs => (parseNatChars cs).map (fun k => .op (.releaseHook k))
   | 'p' :: cs => (parseNatChars cs).map (fun k => .op (.call k .ping))
